@@ -3489,6 +3489,9 @@ class FParser2IR(GenericVisitor):
         return ir.ReturnStmt(**kwargs)
 
     def visit_Cycle_Stmt(self, o, **kwargs):
+        if o.items[1] is not None:
+            # The construct name cannot be represented on CycleStmt: retain the statement as-is
+            return self.visit_Generic_Stmt(o, **kwargs)
         return ir.CycleStmt(**kwargs)
 
     def visit_Continue_Stmt(self, o, **kwargs):
@@ -3499,7 +3502,10 @@ class FParser2IR(GenericVisitor):
         return ir.GotoStmt(text=label, **kwargs)
 
     def visit_Exit_Stmt(self, o, **kwargs):
-        return ir.ExitStmt(o.items[1], **kwargs)
+        if o.items[1] is not None:
+            # The construct name cannot be represented on ExitStmt: retain the statement as-is
+            return self.visit_Generic_Stmt(o, **kwargs)
+        return ir.ExitStmt(**kwargs)
 
     def visit_Stop_Stmt(self, o, **kwargs):
         return ir.StopStmt(o.items[1], **kwargs)
